@@ -29,9 +29,10 @@ class ForeignXmlGen:
         self.g = g
         self.r = g.rng
 
-    def name(self, prefixes, default):
+    def name(self, prefixes, default, text=False):
         r = self.r
-        loc = r.choice(["e1", "e2", "a1", "ag1", "x", "y.z", "n-1"]) + str(r.randint(0, 3))
+        # (text: the name is attribute or element *text* — prov:id, prov:ref, xsd:QName content —, where a percent-escape is legal)
+        loc = r.choice(["e1", "e2", "a1", "ag1", "x", "y.z", "n-1"] + (["rep%20v"] if text else [])) + str(r.randint(0, 3))
         if default and r.random() < getattr(self, "bare_p", 0.2):
             return loc
         return r.choice(prefixes) + ":" + loc
@@ -78,7 +79,7 @@ class ForeignXmlGen:
         elif k < 0.76:
             el.set("{%s}type" % XSI, "xsd:anyURI"); el.text = "http://example.org/some/uri"
         elif k < 0.86:
-            el.set("{%s}type" % XSI, "xsd:QName"); el.text = self.name(prefixes, default)
+            el.set("{%s}type" % XSI, "xsd:QName"); el.text = self.name(prefixes, default, text=True)
         elif k < 0.92:
             el.set("{%s}lang" % XML, r.choice(["en", "fr"])); el.text = r.choice(["bonjour", "hello", " hello \n"])
         else:
@@ -108,7 +109,7 @@ class ForeignXmlGen:
     def _record_body(self, el, kind, label, nsmap, prefixes, default):
         r = self.r
         if kind in ELEMENTS or r.random() < 0.4:
-            el.set("{%s}id" % PROV, self.name(prefixes, default))
+            el.set("{%s}id" % PROV, self.name(prefixes, default, text=True))
         if r.random() < 0.1:
             el.set("{%s}type" % XSI, self.name(prefixes, default))        # xsi:type on the record element
         for i, f in enumerate(KIND_FORMALS[kind]):
@@ -117,7 +118,7 @@ class ForeignXmlGen:
                 if f in TIMES:
                     c.text = self.time()
                 else:
-                    c.set("{%s}ref" % PROV, self.name(prefixes, default))
+                    c.set("{%s}ref" % PROV, self.name(prefixes, default, text=True))
         tails = [t for t in TAIL if r.random() < 0.3]
         second = None
         if label != kind and r.random() < 0.5:
